@@ -353,9 +353,15 @@ def kconfig_rules(ctx, ev):
     rets = [o for o in outs if o.kind == "return"]
     raises = [o for o in outs if o.kind == "raise"]
     appends = [c for o in rets for c in find_effect_calls(o.effects, "meth:append")]
-    if len(appends) != 1:
+    built = None   # the list of entries when it is built by one comprehension that is returned
+    if not appends:
+        comps = {o.value for o in rets if isinstance(o.value, App) and o.value.op == "comp:list" and len(o.value.args) == 3}
+        if len(comps) == 1 and len(rets) == len([o for o in rets if o.value in comps]):
+            built = next(iter(comps))
+    if len(appends) != 1 and built is None:
         raise AnalysisError(f"{fq}: append of the assignment not recognised")
-    data = appends[0].args[1]
+    data = appends[0].args[1] if built is None else built.args[0]
+    entry_node = appends[0].node if built is None else fi.node
     entry = {kv.args[0].v: kv.args[1] for kv in data.args} if isinstance(data, App) and data.op == "dict" else None
     if entry is None:
         raise AnalysisError(f"{fq}: assignment entry is not a dict literal")
@@ -392,7 +398,7 @@ def kconfig_rules(ctx, ev):
     ok = kv_ is not None and kc is not None and kv_[0] == kc[0] and kv_[1] == kc[1] == "SB_CONFIG_SUIT_MPI_" and kv_[2] == kc[2]
     R.check("C13-D2a same manifest", ok and kv_[3] == "_VENDOR_NAME" and kc[3] == "_CLASS_NAME",
             "config[SB_CONFIG_SUIT_MPI_<m>_VENDOR_NAME] / config[SB_CONFIG_SUIT_MPI_<m>_CLASS_NAME] with one <m>",
-            mod=fi.module, node=appends[0].node, function=fq, expected="both keys built from the same matched manifest name",
+            mod=fi.module, node=entry_node, function=fq, expected="both keys built from the same matched manifest name",
             found=f"vendor key {repr(entry.get('vendor_name'))[-120:]}, class key {repr(entry.get('class_name'))[-120:]}")
     # the manifest name is the regex group of the key being iterated
     manifest = kv_[2] if kv_ else (kc[2] if kc else None)
@@ -473,6 +479,35 @@ def kconfig_rules(ctx, ev):
             exc = r.value
             en = exc.args[0].obj.name if isinstance(exc, App) and exc.op == "new" and isinstance(exc.args[0], Ref) else "?"
             ok = ok or (not pre and en == "GeneratorError")
+    if not ok and built is not None:
+        # duplicates looked for after the list is complete.  itertools.groupby(xs, key) (library fact: it starts a new group whenever
+        # the key CHANGES, i.e. it groups adjacent items only) finds every duplicate pair iff xs is sorted by the same key.
+        for r in raises:
+            exc = r.value
+            en = exc.args[0].obj.name if isinstance(exc, App) and exc.op == "new" and isinstance(exc.args[0], Ref) else "?"
+            gbs = [c.args[0] for c in r.conds if isinstance(c, App) and c.op == "inloop" and len(c.args) == 1 and isinstance(c.args[0], App)
+                   and c.args[0].op == "call:itertools.groupby"]
+            if en != "GeneratorError" or len(gbs) != 1:
+                continue
+            gb = gbs[0]
+            pos = [x for x in gb.args if not (isinstance(x, App) and x.op == "kw")]
+            kws = {x.args[0].v: x.args[1] for x in gb.args if isinstance(x, App) and x.op == "kw"}
+            keyf = kws.get("key", pos[1] if len(pos) > 1 else None)
+            both = isinstance(keyf, App) and keyf.op == "call:operator.itemgetter" and {a_.v for a_ in keyf.args if isinstance(a_, Const)} == {"vendor_name", "class_name"} \
+                and len(keyf.args) == 2
+            group = App("unpack", (App("elem", (gb,)), Const(1), Const(2)))
+            sized = any(isinstance(c, App) and c.op in (">", ">=", "!=") and any(s_ == group for s_ in subterms(c)) for c in r.conds)
+            if not (both and sized and pos):
+                continue
+            src = pos[0]
+            srt = isinstance(src, App) and src.op == "call:sorted" and src.args and src.args[0] == built and \
+                {x.args[0].v: x.args[1] for x in src.args if isinstance(x, App) and x.op == "kw"}.get("key") == keyf
+            R.check("C13-D2c duplicate pair rejected", True, "same vendor_name and class_name as an earlier entry", mod=fi.module,
+                    node=r.node, function=fq, expected="entries grouped by (vendor_name, class_name); a group of two or more raises GeneratorError", found="")
+            R.check("C13-D2c duplicate pair rejected", srt, "the scan compares every earlier entry", mod=fi.module, node=r.node, function=fq,
+                    expected="every pair of entries is compared (groupby over the entries sorted by the same key, or a scan of all earlier entries)",
+                    found="itertools.groupby over the entries in file order groups adjacent entries only: a pair repeated with another entry in between is accepted")
+            return
     R.check("C13-D2c duplicate pair rejected", ok, "same vendor_name and class_name as an earlier entry", mod=fi.module,
             node=fi.node, function=fq, expected="raise GeneratorError when both names equal an earlier entry, before append",
             found="no such rejecting path")
